@@ -931,36 +931,56 @@ def _map_func_over_core_dims(
         for i, arg in enumerate(original_args)
     ]
 
-    boundary_width_per_numpy_axis = {
-        grid.axes[ax_name]._get_axis_dim_num(transposed_original_args[0]): width
-        for ax_name, width in boundary_width_real_axes.items()
-    }
+    # overlap depth of each core dimension of each argument (arguments may have different numbers of dimensions,
+    # so the depths are kept per argument and per core dimension, not per numpy axis of the first argument)
+    def _width_of_core_dim(dim):
+        for ax_name, width in boundary_width_real_axes.items():
+            if dim in grid.axes[ax_name].coords.values():
+                return width
+        return (0, 0)
 
-    single_dim_chunktype = Tuple[int, ...]
-
-    def _dict_to_numbered_axes(
-        sizes: Mapping[str, single_dim_chunktype],
-    ) -> Tuple[single_dim_chunktype, ...]:
-        """This implicitly crystallises the order of the given mapping"""
-        return tuple(sizes.values())
+    core_widths_per_arg = [
+        [_width_of_core_dim(dim) for dim in arg_core_dims]
+        for arg_core_dims in in_core_dims
+    ]
 
     # Our rechunking means dask.map_overlap needs to be explicitly told what chunks output should have
     # But in this case output chunks are the same as input chunks
     # (as we disallowed axis positions for which this is not the case)
-    original_chunksizes = [arg.variable.chunksizes for arg in transposed_original_args]
-    # TODO first argument only because map_overlap can't handle multiple return values (I think)
-    true_chunksizes = original_chunksizes[0]
-    # dask.map_overlap needs chunks in terms of axis number, not axis name (i.e. (chunks, ...), not {str: chunks})
-    true_chunksizes_per_numpy_axis = _dict_to_numbered_axes(true_chunksizes)
+    original_core_chunks_per_arg = [
+        tuple(
+            arg.variable.chunksizes.get(dim, (arg.sizes[dim],))
+            for dim in arg_core_dims
+        )
+        for arg, arg_core_dims in zip(transposed_original_args, in_core_dims)
+    ]
 
     # (we don't need a separate code path using bare map_blocks if boundary_widths are zero because map_overlap just
     # calls map_blocks automatically in that scenario)
     def mapped_func(*a, **kw):
+        from dask.array.core import broadcast_chunks
+
+        # xarray hands over every argument with its core dims as the trailing numpy axes
+        n_core = [len(arg_core_dims) for arg_core_dims in in_core_dims]
+        depth_per_arg = [
+            {arg.ndim - n + j: width for j, width in enumerate(widths)}
+            for arg, n, widths in zip(a, n_core, core_widths_per_arg)
+        ]
+        # the output is laid out like the broadcast of the arguments: their other dimensions broadcast against
+        # each other, followed by the (unpadded) core dims of the argument with the most core dims
+        # TODO first such argument only because map_overlap can't handle multiple return values (I think)
+        ref = max(range(len(a)), key=lambda i: n_core[i])
+        other_chunks = broadcast_chunks(
+            *[arg.chunks[: arg.ndim - n] for arg, n in zip(a, n_core)]
+        )
+        true_chunksizes_per_numpy_axis = (
+            tuple(other_chunks) + original_core_chunks_per_arg[ref]
+        )
         return dask_map_overlap(
             func,
             *a,
             **kw,
-            depth=boundary_width_per_numpy_axis,
+            depth=depth_per_arg if len(a) > 1 else depth_per_arg[0],
             boundary="none",
             trim=False,
             meta=np.array([], dtype=out_dtypes[0]),
